@@ -3,7 +3,7 @@ WORKER = "w_c12"
 HEADER = ("From Coq Require Import List ZArith NArith QArith Qcanon.\n"
           "From Dimod Require Import Base.Util Model.Poly Model.LP Model.LPTok Model.LPRead Model.ChkC12.\nImport ListNotations.")
 CHECK_FN = "check"
-N_QUICK = 1200
+N_QUICK = 1000
 N_THOROUGH = 40000
 SHARD = 100
 SHRINK_KEYS = ["probes"]
@@ -16,7 +16,12 @@ RULE = ("random LP-expressible CQMs: 0-14 BINARY/INTEGER/REAL variables with exp
         "text = tokens of the writes. Magnitude stream (12%): right-hand sides +-1e29..1.8e308 and variable bounds at the vartype limits (+-1e30 REAL, +-(2^53-1) INTEGER) for all senses, sense/rhs/bounds compared exactly, energies not probed. Every round trip also feeds the words of the dumped text, classified into tokens, to the Coq reference parser (parse_tokens + reader conventions) and compares objective, constraints (label, lhs, sense, rhs) and variables (type, clamped bounds) with what the C++ reader built. Label stream (14%): 2-4 binary variables whose adjacent names may form the reader's two-word keywords (subject to / such that, any case), compared with names_section_read; or one accepted label - random, or inside the reported defect regions (keywords in any case, inf/nan prefixes, leading ';', free) - as a variable or a constraint label in a small model; whether loads(dumps) gives the model back is compared with the Coq model of the reader's tokenizer built from the keyword/delimiter tables generated from reader.cpp, def.hpp and lp.py (translators/lp_grammar.py). Refusal stream (22%): SPIN variable (used/unused), soft constraint, non-string / empty / 256+ / "
         "bad-first-character / out-of-alphabet label on a variable or a constraint, plus controls: dump must raise exactly when the model "
         "says so and leave nothing loadable. Labels in the reported defect regions (leading ';', LP keywords, inf/nan prefixes, adjacent "
-        "subject/to) are kept out of the random stream. non-trivial = model has a term or a constraint; distinct by case JSON")
+        "subject/to) are kept out of the random stream. Round 4: in 60% of the magnitude stream, linear / quadratic coefficients, objective "
+        "offsets and right-hand sides at the ends of the double range (subnormals 5e-324..2.2e-308 where strtod reports ERANGE, 1e-300, 1e300, "
+        "1.8e308), compared exactly; every round trip additionally feeds the CHARACTERS of the dumped text to the Coq model of the reader's "
+        "tokenizer and keyword stage (Model/LPLex.v: readnexttoken + processtokens with the generated tables, strtod span, exact decimal "
+        "value of numerals) in front of the reference parser and compares with what the C++ reader built (KTripFull). "
+        "non-trivial = model has a term or a constraint; distinct by case JSON")
 TRUSTED = ["generated: coq/theories/Gen/Gen_LP.v by translators/lp_grammar.py (LABEL_VALID_CHARS, LABEL_INVALID_FIRST_CHARS, label length, "
            "TARGET_LINE_LEN and break string of lp.py; sectionkeywordmap, single-character tokens, line-discarding characters, identifier "
            "delimiters of reader.cpp; LP_KEYWORD_INF/FREE of def.hpp); hand-stated: the prefixes C strtod consumes (digits, '.', inf, nan)",
@@ -25,9 +30,22 @@ TRUSTED = ["generated: coq/theories/Gen/Gen_LP.v by translators/lp_grammar.py (L
            "model: coq/theories/Model/LPTok.v: token-level printer and a reference parser for the writer's grammar, proved inverse "
            "(C12_parse_print_cqm); the C++ tokenizer/parser extern/filereaderlp is tied to it: the reference parser run on the words of "
            "the implementation's own text must give the objective, constraints, types and bounds the C++ reader gives (KParse)",
-           "character-level lexing is not modelled: the worker classifies the whitespace-separated words of the text into tokens "
+           "model: coq/theories/Model/LPLex.v: the reader's tokenizer (Reader::readnexttoken) and keyword stage (Reader::processtokens) as code "
+           "on the characters of the file, with the generated tables; hand-stated: the shape of the text C strtod consumes (decimal "
+           "literals, inf/infinity/nan; hexadecimal literals refused), the kind of each single-character token, and the translation of "
+           "the reader's processed tokens into the reference parser's vocabulary (to_tokens); numerals whose decimal value is not a double "
+           "are looked up in a table of Python float() values (strtod's rounding is not modelled), all others are evaluated in Coq",
+           "the older word-level comparison is kept: the worker classifies the whitespace-separated words of the text into tokens "
            "(section lines in column 0, label tables of the model, Python float() for numerals)",
            "Python repr / C strtod agree on the printed dyadic numbers (oracle)"]
 ASSUMPTIONS = ["coefficients are dyadic and exactly printed by repr and re-read by strtod",
                "the C++ reader agrees with the verified reference parser on the writer's grammar (checked on every generated text, not proved)"]
-PARTIAL = []
+PARTIAL = ["the round trip is now proved from the CHARACTERS within the model (C12_lp_chars_roundtrip: writer conventions, words + any line "
+           "breaks, tokenizer, keyword stage, translation, reference parser, reader conventions; hypotheses: labels outside the reported "
+           "defect regions, numerals = decimal words the reader values correctly, bounds in range). NOT proved, only checked on every "
+           "generated text (KTripFull): that the text lp.dump really writes is the words of items_cqm (lpmodel_of_cqm c) - the Coq "
+           "printer mirrors dump by inspection; the fixed words are generated from dump's source",
+           "the section parsers of the C++ reader (processobjectivesec, parseexpression, processboundssec, ...) are not modelled as code: "
+           "the reference parser of Model/LPTok.v (proved inverse of the printer) stands for them and is compared with the C++ result",
+           "numerals: the Coq model evaluates a decimal numeral exactly; where that value is not a double (e.g. 1e+30, 3e-310) the "
+           "rounding of strtod is taken from Python's float() (table in the case), not modelled; Python repr is an oracle"]
